@@ -356,7 +356,12 @@ pub fn exec(spec: &ExecSpec, wd: &WorkDir) -> ExecResult {
         let mut junk = vec![0u8; 64 + rng.usize_below(4000)];
         rng.fill(&mut junk);
         let _ = std::fs::write(&p.out, &junk);
-        let _ = std::fs::write(&p.stats, b"{\"stale\": true, \"left_by\": \"an earlier run\"}\n# stale\n");
+        // longer than anything the run will write: an overwrite without truncation leaves a tail
+        let mut stale = String::from("{\"stale\": true, \"left_by\": \"an earlier run\"}\n");
+        while stale.len() < 60_000 {
+            stale.push_str("# stale statistics of an earlier, longer run ................................\n");
+        }
+        let _ = std::fs::write(&p.stats, stale.as_bytes());
     }
     let mut input_id = None;
     if spec.input_mode == InputMode::File && spec.argv.iter().any(|a| a.contains("@IN@")) {
